@@ -23,13 +23,15 @@ def make_error(cls):
 
 
 class Wfile:
-    """Stands for the socket file of the connection.  Counts write calls; from
-    write number `fail_at` on, every write raises."""
+    """Stands for the socket file of the connection.  Counts write calls; the
+    writes with index fail_at .. fail_at+span-1 raise (span None: every write
+    from fail_at on — the connection is gone for good)."""
 
-    def __init__(self, drv, events=None, fail_at=None, cls=None):
+    def __init__(self, drv, events=None, fail_at=None, cls=None, span=None):
         self.drv = drv
         self.events = events
         self.fail_at = fail_at
+        self.span = span
         self.cls = cls
         self.n = 0
         self.buf = io.BytesIO()
@@ -40,17 +42,19 @@ class Wfile:
     def write(self, data):
         k = self.n
         self.n += 1
-        if self.fail_at is not None and k >= self.fail_at:
+        if self.fail_at is not None and k >= self.fail_at and (self.span is None or k < self.fail_at + self.span):
+            self.failing = True
             if not self.faulted:
                 self.faulted = True
                 self.drv._logsink.append(MARK)
             raise make_error(self.cls)
+        self.failing = False
         if self.events is not None:
             self.events.append("W")
         return self.buf.write(data)
 
     def flush(self):
-        if self.faulted:
+        if getattr(self, "failing", False):
             raise make_error(self.cls)
 
     def close(self):
@@ -163,17 +167,18 @@ def op_c20_sweep(job, drv):
                      "out": drv.b2s(wf.final[:200]), "log": base["log"][-4:], "fd_left": leak0, "cases": []}
             ks = range(wf.n) if job.get("every_index", True) else sorted(set([0, wf.n // 2, max(wf.n - 1, 0)]))
             for k in ks:
-                for cls in job["classes"]:
-                    drv.reset_lazies() if rq.get("reset_each") else None
-                    gc.collect()
-                    before = fd_snapshot()
-                    fw = Wfile(drv, fail_at=k, cls=cls)
-                    r = drv.serve_once(w.config, data, tls=tls, client=CLIENT, wfile=fw)
-                    nogc = fd_new(before, fd_snapshot())
-                    gc.collect()
-                    aftergc = fd_new(before, fd_snapshot())
-                    entry["cases"].append({"k": k, "cls": cls, "exc": r["exc"], "records": post_fault_records(r["log"]),
-                                           "fd_nogc": nogc, "fd_gc": aftergc, "log": r["log"][-5:]})
+                for span in job.get("spans", [None]):
+                    for cls in job["classes"]:
+                        gc.collect()
+                        before = fd_snapshot()
+                        fw = Wfile(drv, fail_at=k, cls=cls, span=span)
+                        r = drv.serve_once(w.config, data, tls=tls, client=CLIENT, wfile=fw)
+                        nogc = fd_new(before, fd_snapshot())
+                        gc.collect()
+                        aftergc = fd_new(before, fd_snapshot())
+                        entry["cases"].append({"k": k, "span": span, "cls": cls, "exc": r["exc"],
+                                               "records": post_fault_records(r["log"]), "writes": fw.n,
+                                               "fd_nogc": nogc, "fd_gc": aftergc, "log": r["log"][-5:]})
             res.append(entry)
     finally:
         w.close()
